@@ -433,11 +433,13 @@ fn part(tier: Tier) -> Part {
 }
 
 pub fn run(tier: Tier, part_only: bool) -> i32 {
+    let t0 = std::time::Instant::now();
     let own = part(tier);
     if part_only {
         return emit_part(&own);
     }
     let mut rep = Report::new("C01", tier, "exploration");
+    rep.t0 = t0;
     own.merge_into(&mut rep);
     for v in ["memfd", "inproc"] {
         match run_variant_part(v, "C01", tier) {
